@@ -14,7 +14,7 @@ RULE = ("cases: every operator class (nestings to depth 2, batch shapes) x publi
         "operations on rectangular operators; operator @ operator with an inner-dimension mismatch (same class, dense, unbatched, single-block "
         "and block-dimension-as-batch operands of block operators). Only inputs that torch REJECTS for the densified operator are judged (the reference call is "
         "executed, not assumed). oracle: the library raises (at the call or, for lazy results, at evaluation); a returned value is a "
-        "no-raise violation. debug setting on (thorough: also off - the documented opt-out from the safety checks - where acceptances are counted, not judged). distinct key = (root class, operation, badness) [round 4: solve / inv_quad / inv_quad_logdet / sqrt_inv_matmul with bad operands also above the Cholesky threshold (max_cholesky_size(0): CG / MINRES call _matmul without the public checks)]")
+        "no-raise violation. debug setting on (thorough: also off - the documented opt-out from the safety checks - where acceptances are counted, not judged). distinct key = (root class, operation, badness) [round 4: solve / inv_quad / inv_quad_logdet / sqrt_inv_matmul with bad operands also above the Cholesky threshold (max_cholesky_size(0): CG / MINRES call _matmul without the public checks)] [round 5: expand requests of size 1 / -1 (also next to a new leading dimension) at a non-singleton batch dimension, and fewer sizes than dimensions]")
 ASSUMPTIONS = ["torch's own accept / reject verdict on the dense operand is the specification", "a lazy result that raises on to_dense() counts as raising"]
 REQUIRED_STATS = ("judged",)
 
